@@ -155,7 +155,21 @@ static std::string exception_case(const Args& a, long i) {
     auto& S = verif::get(); S.rng_seed = rng_seed; S.sched_point = sched_point; S.remesh_event = on_remesh;
     int threads = std::vector<int>{1, 2, 4, 8, 16}[g.range(0, 4)]; omp_set_num_threads(threads); sched_reset(hash_combine(a.seed, (uint64_t)i), true);
     int n = g.range(1, 12); int nfail = (n >= 2 && g.coin(0.3)) ? 2 : 1; std::set<int> failing; failing.insert((int)(i % n)); while ((int)failing.size() < nfail) failing.insert(g.range(0, n - 1));
-    int kind = (int)(i % 3); std::string kname = kind == 0 ? "parallel_exception_handler" : kind == 1 ? "refine_meshes" : "mesh_writer";
+    int kind = (int)(i % 4); std::string kname = kind == 0 ? "parallel_exception_handler" : kind == 1 ? "refine_meshes" : kind == 2 ? "mesh_writer" : "run_with_a_vanishing_cell";
+    if (kind == 3) {
+        // a whole run in which something goes wrong inside a parallel phase of run_iteration: one or two cells shrink until their target volume is zero (negative
+        // growth, no minimum volume), the pressure law has no finite value any more and the run cannot go on.  Whatever reports it must reach the caller of
+        // run_iteration as an exception (or the run completes): the process must not be terminated from inside a parallel loop
+        const int iters = g.range(12, 30); tis::Scenario s; s.P = tis::base_params(g); s.iterations = iters; s.family = "vanishing_cell";
+        const double r = 4.2e-6 * g.uni(0.9, 1.1), V0 = 4.0 / 3.0 * M_PI * r * r * r * 0.93;
+        cell_type_parameters calm = tis::base_type(0, g, V0); calm.name_ = "calm"; s.types.push_back(calm);
+        cell_type_parameters van = tis::base_type(g.coin(0.7) ? 0 : 2, g, V0); van.name_ = "vanishing"; van.min_vol_ = 0; van.std_growth_rate_ = 0; van.avg_growth_rate_ = -V0 * g.uni(1.5, 6) / (iters * s.P.time_step_); s.types.push_back(van);
+        for (int k = 0; k < n; k++) s.cells.push_back({tis::sphere(r, k * 6.0 * r, 0, 0, g), failing.count(k) ? 1 : 0});
+        s.P.simulation_duration_ = (iters - 0.5) * s.P.time_step_; s.P.sampling_period_ = s.P.time_step_ * (g.coin(0.7) ? 1 : 3);
+        S.phase = nullptr; std::string out = "thr_exc_" + std::to_string(i) + "_" + std::to_string((long)getpid());
+        RunOut ro = run_tissue(s, threads, hash_combine(a.seed, (uint64_t)i), true, hash_combine(a.seed, (uint64_t)i), out);
+        c.obs.i("iterations_done", ro.iters).s("ended_by", ro.exc.empty() ? "completion" : ro.exc.substr(0, 100));
+    } else
     if (kind == 0) {
         std::vector<int> items(n); for (int k = 0; k < n; k++) items[k] = k; std::vector<std::atomic<int>> done(n); for (auto& d : done) d = 0;
         std::function<void(int)> f = [&](int k) { if (failing.count(k)) throw probe_error(k); usleep(50); done[k]++; };
